@@ -277,6 +277,10 @@ def gen_history(rng, max_changes=3, max_files=3, pool=None, p_enc=0.4,
     def cont(name, lvl):
         e = None if rng.chance(1 - p_enc) else \
             (rng.choice(pool) if pool else pick_enc(rng, 0.0))
+
+        if e is not None and rng.chance(0.15):
+            e = scope[min(lvl, len(scope)) - 1]   # what is in effect anyway
+
         op = {'op': 'new_' + name}
 
         if e is not None:
@@ -395,7 +399,9 @@ def gen_foreign(rng, pool=None, shuffle=True, blanks=True, crlf=None,
 
         blank = 0
 
-        if blanks and sections and rng.chance(0.15):
+        if blanks and not sections and rng.chance(0.05):
+            blank = rng.randint(1, 3)       # before the main header
+        elif blanks and sections and rng.chance(0.15):
             blank = rng.randint(1, 3)
 
             if rng.chance(0.1):
